@@ -204,6 +204,46 @@ func Check(c *Case, r *mon.R) {
 			}
 			r.Count("nested_walks_checked", 1)
 		}
+		// a walk abandoned by a panicking visitor (recovered by the caller) must not affect later walks
+		if len(order) > 2 {
+			stopAt := order[rng.Intn(len(order))]
+			func() {
+				defer func() { recover() }()
+				parser.Walk(st, func(n parser.Node) bool {
+					if !IsNilNode(n) && find(n) == stopAt {
+						panic("visitor gives up")
+					}
+					return true
+				})
+			}()
+			var again []*RNode
+			o := mon.Walk(st, func(n parser.Node) bool {
+				if IsNilNode(n) {
+					return false
+				}
+				if rn := find(n); rn != nil {
+					again = append(again, rn)
+				} else {
+					again = append(again, nil)
+				}
+				return true
+			})
+			if o.Anomalous() {
+				r.Violation("", "Walk of statement %d of %q after an earlier Walk was abandoned by a panicking visitor: %s", si, src, o.String())
+				return
+			}
+			if len(again) != len(order) {
+				r.Violation("", "Walk of statement %d of %q visits %d nodes after an earlier Walk was abandoned by a panicking visitor, %d otherwise", si, src, len(again), len(order))
+				return
+			}
+			for i := range again {
+				if again[i] != order[i] {
+					r.Violation("", "Walk of statement %d of %q visits different nodes after an earlier Walk was abandoned by a panicking visitor (position %d)", si, src, i)
+					return
+				}
+			}
+			r.Count("abandoned_walks_checked", 1)
+		}
 		// pruning
 		cand := order
 		if len(cand) > 24 {
